@@ -46,7 +46,7 @@ FSM_RULE = ("Real MotionProcessor fed by a scripted parser; cases: (1) ~330 conf
             "(2) same configs x all strings of length 7 (thorough 10) x one disturbance {window closed, disk check fails, file creation fails, bad frame, reset} at every position; "
             "(3) seeded random scripts (50-2000 events, fps<=9, preview<=5, max<=12s, realistic 3/20 and 10/600 settings) with bad frames, resets and refusals, every fifth one additionally with failing post-trigger WriteFrame calls (5/30/100 %) and failing StopRecording calls (half that rate); (4) trigger-position sweep for cap 1..24.")
 FSM_ASSUME = COMMON_ASSUME + ["the driver aims at motion with a toggling hot pixel, but oracles take the observed MotionDetected callbacks as input"]
-FSM_JOB = {"pkg": "motion", "test": "TestVerif_FSM", "shards": (16, 16), "timeout": (300, 3000), "require": ["recordings", "motion_frames_observed", "post_trigger_write_faults", "stop_faults", "scripts_with_non_increasing_time_on", "scripts_with_non_unique_frame_counter"]}
+FSM_JOB = {"pkg": "motion", "test": "TestVerif_FSM", "shards": (16, 16), "timeout": (300, 3000), "require": ["recordings", "motion_frames_observed", "post_trigger_write_faults", "stop_faults", "scripts_with_non_increasing_time_on", "scripts_with_non_unique_frame_counter", "scripts_with_ffc_events"]}
 
 TH_RULE = ("Real ThrottledRecorder (NewThrottledRecorderWithClock, fake clock) between a scripted caller and a monitor sink. Cases: (1) seeded random schedules from (Start Write* Stop)* with 5..6000 ops, "
            "bucket 1-60 s (and the shipped 600 s), refill 1 s..1 h, min+preview 1-20 s, fps 1-9, wrapped-start failure rate 0/10/40 %; (2) wrapped start failing at call index 0..11; "
@@ -178,7 +178,7 @@ PROPS = {
         "title": "Only complete recordings ever bear the .cptv name; crashes leave no debris",
         "level": "fault_enumeration",
         "rule": "Scenarios through the real handleConn + CPTVFileRecorder in a child process (test binary re-executed): S1 one motion recording, S2 two back-to-back, S3 throttle cut, S4 test recording overlapping a motion recording, "
-                "S5 constant recorder on, S6 connection dropped in mid-frame (Stop path), S7 'clear' in mid-recording, S8 test recording and motion recording starting on the same frame, S9 throttle cut and restart within one trigger, S10 every start failing while the header is written, S11 the temporary names of the next 100 ms already taken when the motion recording starts S12 output directory and constant-recordings folder reached through symbolic links (quick: S1,S3,S4,S5,S6,S8,S10,S11,S12). "
+                "S5 constant recorder on, S6 connection dropped in mid-frame (Stop path), S7 'clear' in mid-recording, S8 test recording and motion recording starting on the same frame, S9 throttle cut and restart within one trigger, S10 every start failing while the header is written, S11 the temporary names of the next 100 ms already taken when the motion recording starts S12 output directory and constant-recordings folder reached through symbolic links S13 an upload backlog of 3000 finished recordings in both directories (quick: S1,S3,S4,S5,S6,S8,S10,S11,S12,S13). "
                 "An uncrashed run counts the hook hits H - the file recorder's own hooks (after create, after header, before/after each frame write, before Close, between Close and rename, after rename, abort path) and hook calls inserted by build overlay into a copy of go-cptv's file writer "
                 "(between its three file creations; in Close after flush, header patch, gzip copy, gzip flush/close, buffered flush, before/after closing and deleting the scratch file); then for EVERY n in 0..H the child SIGKILLs itself at hit n. "
                 "Oracles: I1 - every *.cptv decodes header to EOF with the stock reader, checked synchronously at every hook inside the child, by a free-running observer goroutine, and by the parent on the directory as found; "
@@ -206,7 +206,8 @@ PROPS = {
         "level_text": "Offline differential checker: decode everything the daemon wrote and compare with a reference pipeline composed from models that the unit-tier checks validated against the real components.",
         "level_note": "go-cptv and go-config are pinned dependencies and part of the system under observation.",
         "technique": "offline differential checker (decoded output vs reference pipeline)",
-        "jobs": [{"pkg": "recorder-main", "test": "TestVerif_C11", "race": True, "shards": (16, 16), "timeout": (600, 3000), "require": ["connections", "frames_compared", "motion_files", "continuous_files", "mode_0_connections", "mode_1_connections", "mode_2_connections", "mode_3_connections", "throttle_resumed_files_checked", "predicted_motion_frames", "connections_after_a_reconnect", "connections_with_a_test_recording"]}],
+        "jobs": [{"pkg": "recorder-main", "test": "TestVerif_C11", "race": True, "shards": (16, 16), "timeout": (600, 3000), "require": ["connections", "frames_compared", "motion_files", "continuous_files", "mode_0_connections", "mode_1_connections", "mode_2_connections", "mode_3_connections", "throttle_resumed_files_checked", "predicted_motion_frames", "connections_after_a_reconnect", "connections_with_a_test_recording"]},
+                 {"pkg": "recorder-main", "test": "TestVerif_C11Warmup", "shards": (8, 16), "timeout": (300, 1200), "require": ["warmup_connections", "warmup_connections_with_limits"]}],
     },
     "C12": {
         "title": "Sinks see writes only inside start..stop; faults never crash the pipeline",
@@ -219,7 +220,7 @@ PROPS = {
         "level_text": "Fault enumeration: for every short event sequence the number of sink calls is fixed by a fault-free run and one run per call index injects an error exactly there; every run is judged by protocol automata on the three sinks, panic capture and a recovery check. Random multi-fault scripts extend this to long histories.",
         "level_note": "Enumeration is complete for sequences up to the stated length on the listed configurations; longer histories and fault combinations are sampled. The real CPTVFileRecorder under real I/O faults is exercised by the pipeline job.",
         "technique": "protocol-automaton monitors on injected sinks with exhaustive single-fault placement",
-        "jobs": [{"pkg": "motion", "test": "TestVerif_C12", "shards": (16, 16), "timeout": (300, 2400), "require": ["single_fault_runs", "recoveries_checked", "random_faults_injected"]},
+        "jobs": [{"pkg": "motion", "test": "TestVerif_C12", "shards": (16, 16), "timeout": (300, 2400), "require": ["requests_inside_test_start", "single_fault_runs", "recoveries_checked", "random_faults_injected"]},
                  {"pkg": "recorder-main", "test": "TestVerif_C12Pipe", "shards": (12, 16), "timeout": (300, 1800), "require": ["pipeline_fault_runs", "pipeline_faults_injected"]},
                  {"pkg": "throttle", "test": "TestVerif_ThrottleComposition", "shards": (16, 16), "timeout": (300, 2400), "require": ["composition_runs", "base_starts_checked", "mid_trigger_restarts", "base_start_failures", "runs_with_disk_low_windows"]}],
     },
@@ -291,7 +292,7 @@ PROPS = {
         "level_note": "A porcupine register model would also demand monotonic reads across requests, which the property does not state; the direct interval check is exactly the property and linear with unique ids.",
         "technique": "Go race detector + interval (freshness) checker over a logical-clock event log",
         "jobs": [{"pkg": "recorder-main", "test": "TestVerif_C16", "race": True, "shards": (6, 16), "gomaxprocs": [1, 2, 4, 16, 16, 3], "timeout": (900, 3000), "hang_is_violation": True,
-                  "require": ["outage_probes", "snapshots_checked", "held_snapshots_rechecked", "reconnect_probes", "requests_TakeSnapshot", "requests_TakeTestRecording", "requests_CameraInfo", "motion_recordings_matched", "test_recordings_found"]}],
+                  "require": ["outage_probes", "test_recordings_across_a_bad_frame", "snapshots_checked", "held_snapshots_rechecked", "reconnect_probes", "requests_TakeSnapshot", "requests_TakeTestRecording", "requests_CameraInfo", "motion_recordings_matched", "test_recordings_found"]}],
     },
     "C17": {
         "title": "Continuous recorder tiles the stream; a test recording is 21 consecutive frames",
@@ -307,7 +308,7 @@ PROPS = {
         "level_note": "Throttling independence is structural here (the continuous sink is never wrapped); the pipeline job checks it through main.go's wiring.",
         "technique": "offline trace checker + paired-execution comparator on monitor sinks",
         "jobs": [{"pkg": "motion", "test": "TestVerif_C17", "shards": (16, 16), "timeout": (300, 2400), "require": ["test_recordings_while_continuous_sink_fails", "continuous_sink_failures", "continuous_files", "test_recordings_completed", "test_recordings_overlapping_motion_recording"]},
-                 {"pkg": "recorder-main", "test": "TestVerif_C17Pipe", "shards": (8, 16), "timeout": (300, 1800), "require": ["pipeline_runs", "pipeline_continuous_files", "pipeline_test_recordings", "pipeline_runs_after_a_reconnect", "pipeline_runs_with_low_disk"]}],
+                 {"pkg": "recorder-main", "test": "TestVerif_C17Pipe", "shards": (8, 16), "timeout": (300, 1800), "require": ["runs_with_frozen_telemetry", "pipeline_runs", "pipeline_continuous_files", "pipeline_test_recordings", "pipeline_runs_after_a_reconnect", "pipeline_runs_with_low_disk"]}],
     },
     "C18": {
         "title": "thermal-writer stores every frame once, in order, in well-formed CPTR files",
@@ -353,7 +354,7 @@ PROPS = {
         "level_note": "Trusts the two-variable shadow model; real time is used only in the MotionProcessor consequence job as a one-sided (sound) bound.",
         "technique": "online shadow-model monitor with injected clock",
         "jobs": [{"pkg": "loglimiter", "test": "TestVerif_C20", "shards": (8, 16), "timeout": (120, 900), "require": ["quiet_periods_of_weeks", "printed", "suppressed"]},
-                 {"pkg": "motion", "test": "TestVerif_C20Processor", "shards": (4, 8), "timeout": (120, 900), "require": ["refused_starts", "log_lines"]}],
+                 {"pkg": "motion", "test": "TestVerif_C20Processor", "shards": (4, 8), "timeout": (120, 900), "require": ["alternating_write_failures_logged", "refused_starts", "log_lines"]}],
     },
 }
 
@@ -371,7 +372,7 @@ ARCH32 = {
     "C06": ["TestVerif_Throttle", "TestVerif_ThrottleComposition"],
     "C07": ["TestVerif_C07", "TestVerif_C07Config"], "C08": ["TestVerif_C08"], "C09": ["TestVerif_C09"],
     "C10": ["TestVerif_C10"],
-    "C11": ["TestVerif_C11"],
+    "C11": ["TestVerif_C11", "TestVerif_C11Warmup"],
     "C12": ["TestVerif_C12", "TestVerif_C12Pipe"],
     "C13": ["TestVerif_C13", "TestVerif_C14Pipe"],
     "C14": ["TestVerif_C14Pipe"],
